@@ -5,7 +5,8 @@ import struct, itertools
 ALL_IDS = [1, 2, 3, 4, 5, 6, 9, 10, 11, 12, 13, 14, 16, 21, 22, 23, 24, 25, 26, 27, 28, 29, 30, 31, 33]
 
 RULE = ("hist: histories of table operations (request default i / re-weight handle with s / add / compromise / "
-        "serialise+parse / observe), every step's result compared. First case: every default id requested once, untouched "
+        "serialise+parse / observe), every step's result compared; serialise+parse goes through WriteCodonJSON + ReadCodonJSON on "
+        "one path per source handle, rewritten only when the handle's content changed, otherwise READ AGAIN. First case: every default id requested once, untouched "
         "(fresh-process check of weight 1 + regenerated assignment; every case also reports and judges the start tables it "
         "names). Exhaustive to length L over ids {1,2,11}, three coding sequences (one with all 64 codons) and one cut-off; "
         "random histories to length 8 over random ids (40 % with same-code neighbours 1/11, 27/28, 1/4; half generated linear, "
@@ -236,6 +237,15 @@ def cases(seed, tier):
             ids = list(dict.fromkeys(ids))
         n = r.randint(2, 8)
         yield ["hist", ",".join(map(str, ids))] + random_history(r, ids, n, linear=(k % 2 == 0))
+    # serialise / parse through the FILE entry points: one path read several times (the harness rewrites handle h's file only
+    # when the handle's content changed), by several result handles, with in-place re-weightings of earlier results in between
+    for d in (r.sample(ALL_IDS, 3) if tier == "quick" else ALL_IDS):
+        s1, s2 = coding(r, 30, False), coding(r, 31, True)
+        g = "g:%d" % d
+        yield ["hist", str(d), g, "j:0", "w:1:" + s1, "j:0", "o:1", "o:3"]                  # read, re-weight the result, read again
+        yield ["hist", str(d), g, "j:0", "j:0", "w:1:" + s1, "o:2", "j:0", "w:2:" + s2, "o:5"]  # two readers of one path
+        yield ["hist", str(d), g, "w:0:" + s1, "j:1", "w:2:" + s2, "j:1", "j:3", "a:3:5"]       # file of a re-weighted table
+        yield ["hist", str(d), g, "j:0", "w:0:" + s1, "j:0", "j:1", "w:4:" + s2, "j:1"]         # (not Linear: rewritten file)
     # exact counting: g, w with coding sequences of many lengths
     lens = list(range(0, 14)) + [29, 30, 31, 100, 299, 1000, 1001, 4999]
     lens += ([20000, 100000, 99998] if tier == "quick" else [20000, 50001, 99999, 100000, 99998, 100000])
